@@ -1132,7 +1132,6 @@ func (w World) Simplify(c *sim.Case) []*sim.Case {
 	return out
 }
 
-
 // ---- sequential equivalence of a concurrent burst --------------------------------
 
 func (r *run) snapshot(m *sm.SeatManager) *sm.SeatManagerState {
@@ -1154,8 +1153,8 @@ func cloneSnap(st *sm.SeatManagerState) *sm.SeatManagerState {
 }
 
 type outcome struct {
-	seats      []seatView
-	d, sb, bb  int
+	seats     []seatView
+	d, sb, bb int
 }
 
 func observeOutcome(m *sm.SeatManager) outcome {
